@@ -150,12 +150,12 @@ fn in_line(toks: &[&str], w: &mut dyn Write) {
             "bstream" => replay(Stream::from_iter(chars.clone()).boxed(), &sched, |c| c as u32),
             "io" => {
                 let bytes: Vec<u8> = chars.iter().map(|&c| c as u32 as u8).collect();
-                replay(IoInput::new(std::io::Cursor::new(bytes)), &sched, |b| b as u32)
+                replay(IoInput::new(chumsky_verif_harness::build::Flaky::new(bytes)), &sched, |b| b as u32)
             }
             "iomap" => {
                 let bytes: Vec<u8> = chars.iter().map(|&c| c as u32 as u8).collect();
                 let f: fn(u8) -> (char, SimpleSpan) = chumsky_verif_harness::build::io_pair;
-                replay(IoInput::new(std::io::Cursor::new(bytes)).map(SimpleSpan::from(200..200), f), &sched, |c| c as u32)
+                replay(IoInput::new(chumsky_verif_harness::build::Flaky::new(bytes)).map(SimpleSpan::from(200..200), f), &sched, |c| c as u32)
             }
             "mapped" => {
                 let (v, eoi) = chumsky_verif_harness::run::mapped_tokens(ts, 1);
